@@ -80,3 +80,17 @@ Theorem C03_pk_select_sorted : forall pg op npages sc ms table columns k dbkey c
   = (None, rev (map (to_row 0 ci) (filter (equals dbkey) l))).
 Proof. exact pk_select_sorted. Qed.
 Print Assumptions C03_pk_select_sorted.
+
+(* end to end: IndexedSelectEq and PKSelect answered from the bytes of the file alone (Model/E2E.v) are the operations above on
+   the schema record the file itself defines - the theorems of this file apply to them as they stand *)
+From SQ Require Import Model.Tokenizer Model.Schema Model.E2E Proofs.E2EP.
+Theorem C03_e2e_indexed_select_eq : forall pg op n S cb table iname k columns (s : S) ms st fl,
+  master pg op n = (fl, ms) -> (forall e, fl <> Fail e) -> db_schema ms table = Ok st ->
+  e_indexed_select_eq pg op n S cb table iname k columns s = h_indexed_select_eq pg op n S cb (schema_of st) table iname k columns s.
+Proof. exact e_indexed_select_eq_is_h. Qed.
+Print Assumptions C03_e2e_indexed_select_eq.
+Theorem C03_e2e_pk_select : forall pg op n S cb table k columns (s : S) ms st fl,
+  master pg op n = (fl, ms) -> (forall e, fl <> Fail e) -> db_schema ms table = Ok st ->
+  e_pk_select pg op n S cb table k columns s = h_pk_select pg op n S cb (schema_of st) table k columns s.
+Proof. exact e_pk_select_is_h. Qed.
+Print Assumptions C03_e2e_pk_select.
